@@ -259,6 +259,45 @@ def run(pid, tier, seed, replay=None):
                 raise MachineryError(f"negative control not rejected: {what}")
             stats["control"] = dict(corrupted=what, rejected_by=sorted({c for c, _ in cf[1]}))
 
+    # ---- C04 on implicit-mode inputs --------------------------------------------
+    # "every Hermitian input": with incomplete eigenvectors the effective Hamiltonian of the explicit
+    # blocks must be the one of the complete-basis twin, whose spectrum clause TLC checks here
+    implicit_stage = None
+    if pid == "C04" and replay is None:
+        from . import core_implicit, core_relations
+
+        p0 = pl["primes"][0]
+        n_imp = 12 if tier == "quick" else 96
+        jobs = [(seed, 50_000 + i, p0, dict(solver="direct", sparse_terms=bool(i % 2)), 1, "C04") for i in range(n_imp)]
+        with mp.get_context("fork").Pool(16) as pool:
+            items = pool.map(core_implicit._job, jobs, chunksize=1)
+        ok = [it for it in items if it[0] == "ok"]
+        for it in items:
+            if it[0] in ("bad_value", "crash"):
+                violations.append(dict(kind="implicit_" + it[0], detail=it[2][:500], **it[4]))
+        if ok:
+            twins = [it[3] for it in ok]
+            rels = [it[2] for it in ok]
+            meta_i = {it[2]["sid"]: it[4] for it in ok}
+            r, done, fails, ill = validate_sessions(twins, p0)
+            stats["states"] += r.distinct
+            stats["transitions"] += r.generated
+            for sid, f in fails.items():
+                mine = [x for x in f if x[0].startswith(prefixes)]
+                if mine:
+                    violations.append(dict(kind="clause", clauses=sorted(set(mine)), instance=meta_i[sid]["instance"], p=p0))
+            r, done, rfails = core_relations.validate(rels, p0)
+            stats["states"] += r.distinct
+            stats["transitions"] += r.generated
+            for sid, f in rfails.items():
+                mine = [x for x in f if x[0].endswith(".Ht")]
+                if mine:
+                    violations.append(dict(kind="implicit_effective_hamiltonian_differs_from_twin",
+                                           clauses=sorted(set(mine))[:10], **meta_i[sid]))
+            stats["traces"] += len(ok)
+        implicit_stage = dict(pairs=len(ok), of=n_imp, rule="implicit run (direct solver, dense / sparse terms) vs complete-basis "
+                              "twin: H_tilde equal under the embedding; twin's characteristic polynomial validated")
+
     # ---- verdict -----------------------------------------------------------
     out_lines = []
     new_violations = []
@@ -283,7 +322,7 @@ def run(pid, tier, seed, replay=None):
         rule=("instance = (dimension, block sizes, #parameters, max order, value type, fully_diagonalize form, "
               "blocks named, #perturbation terms); each is run through the real block_diagonalize and every "
               "order of H_tilde, U, U-dagger is validated by TLC against Trace_LeastAction"),
-        mode_a=mode_a,
+        mode_a=mode_a, implicit_mode_stage=implicit_stage,
         primes=list(pl["primes"]),
         crashes_on_wellposed_input=stats["crashes"],
         crash_examples=crash_examples,
